@@ -107,6 +107,13 @@ func (ci *cindex) init(ddir string) error {
 	aiMap := make(map[uint64]bool)
 	for _, sc := range ci.journals {
 		for _, c := range sc {
+			if c.IdxRoot.IndexId != 0 && !ci.cc.isRoot(c.IdxRoot) {
+				// the root block cannot be read or it is empty (the index file was truncated, or
+				// its pages were not written because of a crash): forget it, the index will be rebuilt
+				ci.logger.Warn("the time index root ", c.IdxRoot, " of chunk ", c.Id, " is not usable, will be rebuilt")
+				c.IdxRoot = Item{}
+			}
+
 			if c.IdxRoot.IndexId != 0 {
 				aiMap[c.IdxRoot.IndexId] = true
 			}
